@@ -243,6 +243,24 @@ def d3_seed(ctx, obs):
     ctx.check(rule, key + '-only-when-missing', bool(g) and unparse(g[0][0][0]) == 'random_numbers is None' and g[0][0][1], 'supplied random numbers take precedence', 'generation guard differs')
 
 
+def d4b_orientation(ctx, obs, rule='C13-D2'):
+    """the table of random numbers is (samples, length) by contract; it is never re-oriented or shifted by a heuristic (a square table,
+    a table that never draws configuration 0 cannot be told apart from what the heuristic looks for)"""
+    n = 0
+    for q in ('import_bootstrap', 'Obs.export_bootstrap'):
+        f = obs.func(q)
+        tr = [x for x in walk(f) if (isinstance(x, ast.Attribute) and x.attr == 'T' and 'random_numbers' in unparse(x.value))
+              or (isinstance(x, ast.Call) and (obs.dotted(x.func) or '').endswith(('transpose', 'swapaxes')) and x.args and 'random_numbers' in unparse(x.args[0]))
+              or (isinstance(x, ast.Call) and isinstance(x.func, ast.Attribute) and x.func.attr in ('transpose', 'swapaxes') and 'random_numbers' in unparse(x.func.value))]
+        shift = [s_ for s_ in statements(f) if (isinstance(s_, ast.AugAssign) and unparse(s_.target) == 'random_numbers')
+                 or (isinstance(s_, ast.Assign) and unparse(s_.targets[0]) == 'random_numbers' and isinstance(s_.value, ast.BinOp) and 'random_numbers' in unparse(s_.value))]
+        n += 1
+        ctx.check(rule, 'obs.py:%s#table-used-as-given' % q, not tr and not shift, 'the supplied table is used in the documented orientation and with the numbers it holds',
+                  'the table of random numbers is %s (`%s`): a heuristic on its shape / content re-interprets valid tables (a square table, a table that never draws configuration 0)'
+                  % ('transposed' if tr else 'shifted', unparse(tr[0]) if tr else (unparse(shift[0]) if shift else '')), obs.loc(tr[0] if tr else shift[0]) if (tr or shift) else None)
+    ctx.floor('bootstrap functions with a table argument', n, 2)
+
+
 def d5_effects(ctx, obs):
     """export / import never write into their arguments (the caller's sample arrays are reused for further imports): effect analysis
     with may-alias (views obtained by asarray / slicing count as the argument itself)"""
@@ -301,6 +319,7 @@ def run(ctx):
     from .. import samplerule
     ctx.rule('C13-D4', 'exported data = fluctuation + replica mean of the same chain; arguments are never written (views included)')
     ctx.guarded('C13-D4', 'obs.py@samples', samplerule.check, ctx, 'C13-D4', obs, ('Obs.export_jackknife', 'Obs.export_bootstrap'))
+    ctx.guarded('C13-D2', 'obs.py@table-orientation', d4b_orientation, ctx, obs)
     ctx.guarded('C13-D4', 'obs.py@effects', d5_effects, ctx, obs)
     ctx.floor('C13 obligations', len(ctx.obs), 20)
 
